@@ -114,6 +114,71 @@ def dict_tie():
                     "DictC18Proofs.v", "DictGen.")
 
 
+def corr_tie():
+    """Fundamentals.set_correlation / remove_correlation (C12): the correlation table as a map on unordered pairs"""
+    import py2coq_corr
+    src = os.path.join(REPO, "pams", "fundamentals.py")
+    return _run_tie("translator:pams/fundamentals.py(C12 correlation table)", src, lambda: py2coq_corr.translate(REPO), "CorrGen.v",
+                    "CorrC12Proofs.v", "CorrGen.")
+
+
+def corr_sweep_c12(seed=0, tier="quick", cov=None):
+    """directed search used with the C12 tie: random scripts of set_correlation / remove_correlation on the real Fundamentals, naming
+    pairs both ways round, against a reference map on unordered pairs: what was set last is what both orders read, a removed pair is
+    gone for both, no pair is stored twice, nothing else changes; wrong arguments are refused"""
+    import random
+    from pams.fundamentals import Fundamentals
+    out, n = [], 0
+    rnd = random.Random(7000 + seed)
+    for trial in range(60 if tier == "quick" else 600):
+        f = Fundamentals(prng=random.Random(trial))
+        ref = {}
+        script = []
+        for _ in range(rnd.randint(1, 8)):
+            a, b = rnd.sample(range(4), 2)
+            if ref and rnd.random() < 0.3:
+                a, b = rnd.choice([tuple(k) for k in ref])
+                if rnd.random() < 0.5:
+                    a, b = b, a
+                op = ("remove", a, b)
+            else:
+                op = ("set", a, b, rnd.choice([-0.5, -0.25, 0.25, 0.5, 0.75]))
+            script.append(op)
+            n += 1
+            try:
+                if op[0] == "set":
+                    f.set_correlation(a, b, op[3])
+                    ref[frozenset((a, b))] = op[3]
+                else:
+                    f.remove_correlation(a, b)
+                    ref.pop(frozenset((a, b)))
+                got = {}
+                dup = False
+                for (x, y), v in f.correlation.items():
+                    dup = dup or frozenset((x, y)) in got
+                    got[frozenset((x, y))] = v
+                bad = dup or got != ref
+            except Exception as e:  # noqa
+                got, bad = {"raised": repr(e)[:100]}, True
+            if bad and len(out) < 3:
+                out.append({"rule": "log-returns-have-configured-volatility-and-correlation", "at": n,
+                            "detail": {"script": script, "table": [[list(k), v] for k, v in f.correlation.items()],
+                                       "expected": [[sorted(k), v] for k, v in ref.items()],
+                                       "source": "direct calls of Fundamentals.set_correlation / remove_correlation"}})
+                break
+        for args in ((1, 1, 0.5), (0, 1, 1.0), (0, 1, -1.0)):
+            try:
+                f.set_correlation(*args)
+                if len(out) < 3:
+                    out.append({"rule": "log-returns-have-configured-volatility-and-correlation", "at": n,
+                                "detail": {"set_correlation": list(args), "expected": "ValueError", "got": "accepted"}})
+            except ValueError:
+                pass
+    if cov is not None:
+        cov["correlation_table_ops"] = n
+    return out
+
+
 def holdings_sweep_c05(seed=0, tier="quick", cov=None):
     """directed search used with the C05 tie: the real Simulator._update_agents_for_execution on small populations and fill lists
     (self-trades, repeated parties, several markets), against the property text: the buyer pays price x volume and receives volume
